@@ -54,7 +54,9 @@ pub enum Spec {
     /// nothing is in flight (removes txtpp's 100 ms idle sleeps)
     Free { delay: Option<(u64, u64)> },
     /// gate-controlled
-    Controlled { strategy: Strategy, early_poll_at: Option<u32> },
+    /// `eager_recv`: the coordinator receives as soon as a result is pending (its own steps commute
+    /// with every task step; only the *order of sends* and of task runs is explored)
+    Controlled { strategy: Strategy, early_poll_at: Option<u32>, eager_recv: bool },
 }
 
 #[derive(Debug, Clone, Copy, PartialEq)]
@@ -295,6 +297,9 @@ impl Ctl {
         let mut o = vec![];
         if Self::pending(s) > 0 {
             o.push(Step::Recv);
+            if matches!(s.spec, Spec::Controlled { eager_recv: true, .. }) {
+                return o;
+            }
         }
         let mut sends: Vec<(_, u64)> = vec![];
         let mut runs: Vec<(_, u64)> = vec![];
